@@ -19,10 +19,12 @@ thread_local! {
     static NEXT_DEFAULT: RefCell<u32> = RefCell::new(1000);
 }
 /// not Copy, not Clone: every read through a trait and every drop is recorded
-pub struct Tok { id: u32 }
-impl Tok { fn new(id: u32) -> Tok { Tok { id } } }
+/// (it also owns a heap allocation, so that an interpreter that tracks pointer provenance sees every move of an element
+/// as the move of a `Box`)
+pub struct Tok { id: u32, _heap: Box<u32> }
+impl Tok { fn new(id: u32) -> Tok { Tok { id, _heap: Box::new(id) } } }
 impl Drop for Tok { fn drop(&mut self) { DROPS.with(|d| d.borrow_mut().push(self.id)); } }
-impl Default for Tok { fn default() -> Tok { NEXT_DEFAULT.with(|n| { let mut n = n.borrow_mut(); *n += 1; Tok { id: *n } }) } }
+impl Default for Tok { fn default() -> Tok { NEXT_DEFAULT.with(|n| { let mut n = n.borrow_mut(); *n += 1; Tok::new(*n) }) } }
 impl std::fmt::Debug for Tok { fn fmt(&self, f: &mut std::fmt::Formatter) -> std::fmt::Result { READS.with(|r| r.borrow_mut().push(self.id)); write!(f, "t{}", self.id) } }
 impl PartialEq for Tok { fn eq(&self, o: &Tok) -> bool { READS.with(|r| { let mut r = r.borrow_mut(); r.push(self.id); r.push(o.id); }); self.id == o.id } }
 impl Eq for Tok {}
